@@ -310,7 +310,8 @@ func (cw *chunkWriter) writeHeader(p []byte) {
 	// write non-zero bytes.  If it's actually 0 bytes and the
 	// handler never looked at the Request.Method, we just don't
 	// send a Content-Length header.
-	if w.handlerDone && w.status != bfe_http.StatusNotModified && header.GetDirect("Content-Length") == "" && (!isHEAD || len(p) > 0) {
+	if w.handlerDone && w.status != bfe_http.StatusNotModified && header.GetDirect("Content-Length") == "" &&
+		header.GetDirect("Transfer-Encoding") == "" && (!isHEAD || len(p) > 0) {
 		w.contentLength = int64(len(p))
 		setHeader.contentLength = strconv.AppendInt(cw.res.clenBuf[:0], int64(len(p)), 10)
 	}
@@ -417,6 +418,7 @@ func (cw *chunkWriter) writeHeader(p []byte) {
 		// might have set.  Deal with that as need arises once we have a valid
 		// use case.
 		cw.chunking = true
+		delHeader("Transfer-Encoding") // replaced by the one below (it used to be sent in addition)
 		setHeader.transferEncoding = "chunked"
 	} else {
 		// HTTP version < 1.1: cannot do chunked transfer
